@@ -443,7 +443,9 @@ func (d cffDict) setFontMatrix(op dictOp, fm matrix.Matrix, isCIDKeyed bool) {
 		} else {
 			def = defaultFontMatrix[i]
 		}
-		if math.Abs(xi-def) > 1e-5 {
+		// Real numbers are stored with 9 significant digits; only omit the
+		// matrix if it equals the default at this precision.
+		if math.Abs(xi-def) > 5e-10*math.Abs(def) {
 			needed = true
 			break
 		}
